@@ -32,7 +32,7 @@ func init() {
 		ID: "C18",
 		Explanation: "Structural necessary conditions only (most of C18 quantifies over chunking schedules and is not decided): R18.1 the reader's own error value drives the end-of-input/failure logic, a non-EOF error is recorded and returned by the tokenizer entry point; " +
 			"R18.2 in the refill, the in-progress token text is saved before the unread tail is moved, and the source offset advances by the lower bound of the moved tail (the field then reset to zero); R18.3 a policy's position is read from the look-ahead token before " +
-			"any token is consumed; R18.5 byte-slice and stream entry points share one scanner and one policy parser; R18.6 buffer length ≥ utf8.UTFMax with one sentinel slot. Not decided: token text and offset/line/column preservation for every chunking schedule.",
+			"any token is consumed; R18.5 byte-slice and stream entry points share one scanner and one policy parser; R18.6 buffer length ≥ utf8.UTFMax with one sentinel slot. Not decided: token text and offset/line/column preservation for every chunking schedule. R18.12 spill-buffer discipline: every token start clears the spill buffer with no way around the clearing, and nothing but emptiness is decided by how much the spill buffer holds.",
 		Run: runC18,
 	})
 }
